@@ -251,6 +251,24 @@ def run(prop, tier, seed):
             recs.append({"cls": "shortcut:" + name, "dev": max(jd.dev(ser[i, 0], direct_tm[i], 1e-13 * abs(direct_tm[i])), jd.dev(ser[i, 1], direct_sp[i], 1e-13 * abs(direct_sp[i]))),
                          "elem": list(k), "curve": name})
         recs.append({"cls": "pool-bitwise:" + name, "ok": bool(np.array_equal(ser, pool) and np.array_equal(l2s, l2p)), "curve": name})
+        # the element list in another order (the caller decides the order): same numbers per element
+        perm = list(range(len(elems)))
+        rng.shuffle(perm)
+        with contextlib.redirect_stdout(io.StringIO()):
+            ser_p = est.estimate_sobolev([elems[j] for j in perm], residual, use_mp=False)
+        wp = 0
+        for pos, j in enumerate(perm):
+            for col, d_ in ((0, direct_tm), (1, direct_sp)):
+                wp = max(wp, jd.dev(ser_p[pos, col], d_[j], 1e-13 * abs(d_[j])))
+        recs.append({"cls": "list-order:" + name, "dev": wp, "curve": name})
+        # a second, different residual through the pool of the same estimator object: still the serial numbers
+        res2 = (lambda residual: lambda t, x_hat, gamma: 1.0 + 2.0 * np.asarray(residual(t, x_hat, gamma)) ** 2)(residual)
+        with contextlib.redirect_stdout(io.StringIO()):
+            s2 = est.estimate_sobolev(elems, res2, use_mp=False)
+            p2 = est.estimate_sobolev(elems, res2, use_mp=True)
+            l2s2 = est.estimate_weighted_l2(elems, res2, use_mp=False)
+            l2p2 = est.estimate_weighted_l2(elems, res2, use_mp=True)
+        recs.append({"cls": "pool-second-call:" + name, "ok": bool(np.array_equal(s2, p2) and np.array_equal(l2s2, l2p2)), "curve": name})
         recs.append({"cls": "nonneg:" + name, "ok": bool(np.all(ser >= 0) and np.all(np.asarray(l2s) >= 0)), "curve": name})
         # diagnostic: every recorded space call is a contiguous interval a < b or a pw pair joined at one point
         bad_calls = [c for c in srx.calls if (c[0] in ("h12", "h14") and not c[1] < c[2])]
